@@ -60,9 +60,13 @@ def run(ctx, build, verdict, ev):
         lits = []
         for x in xs:
             with np.errstate(all="ignore"):
-                r = float(real.hedge(x))
+                raw = real.hedge(x)
+                if np.shape(raw) != ():
+                    verdict.add_violation(f"{name}:scalar-shape", f"{name}.hedge({x!r}) returns shape {np.shape(raw)} for a scalar argument", {"hedge": name, "x": x})
+                    raw = np.asarray(raw).ravel()[0] if np.size(raw) else math.nan
+                r = float(raw)
                 vlib.RECORDER.reset()
-                rc = float(clone.hedge(x))
+                rc = float(np.asarray(clone.hedge(x)).ravel()[0])
                 tbl = vlib.RECORDER.take()
             if not vlib.same_float(r, rc):
                 clone_diff += 1
@@ -70,10 +74,17 @@ def run(ctx, build, verdict, ev):
             lits.append(f"({vlib.fhex(x)}, {vlib.fhex(r)}, true, {vlib.oracle_lit(tbl)})")
             index.append((name, "scalar", x, r))
         arr = np.array(rnd[: ctx.n(400, 4000)] + near + special)
+        keep = arr.copy()
         with np.errstate(all="ignore"):
             rr = np.asarray(real.hedge(arr))
             r2 = np.asarray(real.hedge(arr.reshape(1, -1)))
-        assert rr.shape == arr.shape and r2.shape == (1, arr.size)
+        if not all(vlib.same_float(a, b) for a, b in zip(arr, keep)):
+            verdict.add_violation(f"{name}:argument-overwritten", f"{name}.hedge(array) modifies its argument in place", {"hedge": name})
+            arr = keep.copy()
+        if rr.shape != arr.shape or r2.shape != (1, arr.size):
+            verdict.add_violation(f"{name}:array-shape", f"{name}.hedge changes the shape of an array argument: {arr.shape} -> {rr.shape}, (1,{arr.size}) -> {r2.shape}", {"hedge": name})
+            rr = np.resize(rr, arr.shape)
+            r2 = np.resize(r2, (1, arr.size))
         for x, r, q in zip(arr, rr, r2[0]):
             if not vlib.same_float(r, q):
                 verdict.add_violation(f"{name}:array-2d", f"{name}.hedge differs between 1-d and 2-d array at {x}", {"hedge": name, "x": float(x)})
